@@ -85,16 +85,20 @@ Section Inv.
 
   (* ---------- consequences ---------- *)
 
+  Lemma chain_end_le : forall cs from, chain from cs -> Forall canon cs -> from <= length data ->
+    from + covered cs <= length data.
+  Proof.
+    induction cs as [|c cs IH]; intros from Hc Hf Hfrom.
+    - unfold covered. cbn. lia.
+    - cbn [chain] in Hc. destruct Hc as [E Hc]. inversion Hf as [|? ? Hcan Hf']; subst.
+      destruct (canon_bounds min max d data Hmin Hmax Hpos _ Hcan) as (_ & _ & Hend).
+      specialize (IH _ Hc Hf' Hend). rewrite covered_cons. unfold c_end, c_start, c_size in *. lia.
+  Qed.
+
   Lemma emit_end_le s i : PInv s -> i < nw -> emit_end s i <= length data.
   Proof.
     intros I Hi. unfold emit_end.
-    destruct (w_emit (getw s i)) as [|c0 r0] eqn:Ee using rev_ind.
-    - unfold covered. cbn. rewrite Nat.add_0_r. apply Hspan, Hi.
-    - clear IHl. pose proof (p_chain s I i Hi) as Hc. pose proof (p_canon s I i Hi) as Hf.
-      rewrite Ee in Hc, Hf. apply chain_app in Hc. destruct Hc as [_ Hc]. cbn in Hc. destruct Hc as [E _].
-      apply Forall_app in Hf. destruct Hf as [_ Hf]. inversion Hf as [|? ? Hcan _]; subst.
-      destruct (canon_bounds min max d data Hmin Hmax Hpos _ Hcan) as (_ & _ & Hend).
-      rewrite covered_app. unfold covered at 2. cbn. unfold c_end, c_start, c_size in *. lia.
+    apply chain_end_le; [apply (p_chain s I i Hi)|apply (p_canon s I i Hi)|apply Hspan, Hi].
   Qed.
 
   Lemma active_ge_kcur s i : PInv s -> i < nw -> act s i -> k_cur (p_c s) <= i.
